@@ -201,26 +201,33 @@ Definition line (st : state) (l : N) (now : Z) : state :=
   mkst (st_index st) (map (fun px => (fst px, line_prog (fst px) (snd px) l now)) (st_progs st))
        (N.succ (st_lines st)).
 
-(* ---- Store.Gc (expiry part; no generated program sets a limit).  The real
-   test is now - datum.Time > Expiry.  [el] is a lower bound on the time since
-   the last stamp; histories keep Expiry either below it or far above the
-   length of the run; a datum still at the zero time is older than any expiry. *)
+(* ---- Store.Gc (expiry part; no generated program sets a limit).  Gc ranges
+   over a Go map, so the model must not depend on an order: every exported
+   metric object (one that some store entry points to) has its expired label
+   values removed.  The real test is now - datum.Time > Expiry.  [el] is a
+   lower bound on the time since the last stamp; histories keep Expiry either
+   below it or far above the length of the run; a datum still at the zero time
+   is older than any expiry. *)
 Definition gc_expired (h : pheap) (el : Z) (x : slv) : bool :=
   (0 <? sl_expiry x)%Z && ((sl_expiry x <? el)%Z || (dt (datum_of h (sl_datum x)) =? 0)%Z).
 
-Definition gc_entry (el : Z) (progs : list (bytes * pstate)) (e : entry) : list (bytes * pstate) :=
-  match blookup (e_prog e) progs with
-  | None => progs
-  | Some x =>
-      let h := ps_heap x in
-      let l := filter (fun lv => negb (gc_expired h el lv)) (obj_lvs h (e_id e)) in
-      bupdate (e_prog e) (mkps (set_obj_lvs h (e_id e) l) (ps_handle x) (ps_loads x) (ps_errs x)
-                               (ps_unloads x) (ps_rterrs x)) progs
-  end.
+Definition exported_in (l : list entry) (p : bytes) (o : N) : bool :=
+  existsb (fun e => bytes_eqb (e_prog e) p && N.eqb (e_id e) o) l.
+Definition exported (idx : index) (p : bytes) (o : N) : bool :=
+  existsb (fun ne => exported_in (snd ne) p o) idx.
+
+Definition gc_heap (idx : index) (el : Z) (p : bytes) (h : pheap) : pheap :=
+  mkph (map (fun ol => (fst ol, if exported idx p (fst ol)
+                                then filter (fun lv => negb (gc_expired h el lv)) (snd ol)
+                                else snd ol)) (ph_lvs h))
+       (ph_data h) (ph_nexto h) (ph_nextd h).
+
+Definition gc_prog (idx : index) (el : Z) (p : bytes) (x : pstate) : pstate :=
+  mkps (gc_heap idx el p (ps_heap x)) (ps_handle x) (ps_loads x) (ps_errs x) (ps_unloads x) (ps_rterrs x).
 
 Definition gc (st : state) (el : Z) : state :=
   mkst (st_index st)
-       (fold_left (gc_entry el) (concat (map snd (st_index st))) (st_progs st))
+       (map (fun px => (fst px, gc_prog (st_index st) el (fst px) (snd px))) (st_progs st))
        (st_lines st).
 
 (* ---- histories ---- *)
